@@ -273,6 +273,17 @@ func scenarioFeatures(s *Scenario, v *Violation) []string {
 	if len(s.History) > 1 {
 		add("history>1")
 	}
+	// an earlier request ran with another segment size than the failing one and its output files were not all evicted:
+	// they are aligned differently (trigger of known finding KF3)
+	if v != nil && v.ReqIdx > 0 && v.ReqIdx < len(s.History) {
+		for i := 0; i < v.ReqIdx; i++ {
+			h := s.History[i]
+			if h.Req.SegSize != s.History[v.ReqIdx].Req.SegSize && !h.DropOutputs {
+				add("history:outputs_of_other_segment_size")
+				break
+			}
+		}
+	}
 	for i, h := range s.History {
 		if v != nil && v.ReqIdx >= 0 && i != v.ReqIdx {
 			continue
